@@ -61,6 +61,15 @@ static std::unique_ptr<SimModel> buildModel(int m) {
             M->contacts.addBody(set, b, ContactGeometry::Sphere(0.3), Transform());
             hc.setBodyParameters(ContactSurfaceIndex(i), 1e4, 0.2, 0.5, 0.3, 0.1);
         }
+    } else if (m == 8 || m == 9) {   // ellipsoid pressed onto a fixed ellipsoid and a fixed sphere (ConvexConvex narrow phase); two different instances with the same surface indices
+        Force::Gravity(M->forces, M->matter, UnitVec3(0, -1, 0), 9.81);
+        ContactSetIndex set = M->contacts.createContactSet();
+        HuntCrossleyForce hc(M->forces, M->contacts, set);
+        MobilizedBody::Free e(M->matter.Ground(), Transform(), Body::Rigid(MassProperties(1.0, Vec3(0), Inertia(0.1))), Transform());
+        M->contacts.addBody(set, e, ContactGeometry::Ellipsoid(m == 8 ? Vec3(0.3, 0.2, 0.25) : Vec3(0.22, 0.35, 0.18)), Transform());
+        M->contacts.addBody(set, M->matter.updGround(), ContactGeometry::Ellipsoid(m == 8 ? Vec3(0.5, 0.3, 0.4) : Vec3(0.35, 0.45, 0.6)), Transform(Rotation(m == 8 ? 0.3 : -0.5, ZAxis), Vec3(0)));
+        M->contacts.addBody(set, M->matter.updGround(), ContactGeometry::Sphere(m == 8 ? 0.3 : 0.4), Transform(m == 8 ? Vec3(0.7, 0.05, 0.02) : Vec3(-0.75, 0.1, -0.03)));
+        for (int i = 0; i < 3; ++i) hc.setBodyParameters(ContactSurfaceIndex(i), 2e4, 0.3, 0.5, 0.3, 0.1);
     } else {                 // mesh on half space (ElasticFoundation; exercises the collision-algorithm registry and OBB tree)
         Force::Gravity(M->forces, M->matter, UnitVec3(0, -1, 0), 9.81);
         ContactSetIndex set = M->contacts.createContactSet();
@@ -86,6 +95,11 @@ static State initialState(SimModel& M, int m) {
             for (int k = 0; k < 3; ++k) s.updQ()[7 * i + 4 + k] = p[k];
             s.updU()[6 * i + 3] = 0.2 * (i - 1.5); s.updU()[6 * i + 4] = -0.1 * i;
         }
+    }
+    else if (m == 8 || m == 9) {   // start slightly penetrating the fixed ellipsoid from above, offset towards the sphere, with spin
+        const Vec3 p = m == 8 ? Vec3(0.28, 0.46, 0.03) : Vec3(-0.3, 0.72, -0.02);
+        for (int k = 0; k < 3; ++k) s.updQ()[4 + k] = p[k];
+        s.updU()[0] = 0.8; s.updU()[2] = -0.5; s.updU()[3] = m == 8 ? 0.3 : -0.3;
     }
     else { s.updQ()[5] = 0.25; s.updU()[0] = 1.0; s.updU()[3] = 0.4; s.updU()[4] = -0.5; }   // Free: q = quat(4) + pos(3); start slightly above the plane
     return s;
@@ -182,9 +196,9 @@ static Bytes actContactQuery() {     // one Dynamics realization of the mesh mod
 }
 
 // ---------------------------------------------------------------- activity alphabet
-static const int NACT = 14;
+static const int NACT = 16;
 static const char* actName(int a) {
-    static const char* n[NACT] = {"sim(chain,RKM)", "sim(loop,CPodes)", "sim(ball,Verlet)", "sim(mesh,SEE2)", "sim(chain,CPodes)", "splineGCV", "LBFGSB", "CMAES(seed42)", "polyRoots", "meshContactQuery", "sim(lockedLoop,RKM)", "sim(freeLoop,RKM)", "sim(sphereCloudXY,RKM)", "sim(sphereCloudY,RKM)"};
+    static const char* n[NACT] = {"sim(chain,RKM)", "sim(loop,CPodes)", "sim(ball,Verlet)", "sim(mesh,SEE2)", "sim(chain,CPodes)", "splineGCV", "LBFGSB", "CMAES(seed42)", "polyRoots", "meshContactQuery", "sim(lockedLoop,RKM)", "sim(freeLoop,RKM)", "sim(sphereCloudXY,RKM)", "sim(sphereCloudY,RKM)", "sim(ellipsoidsA,RKM)", "sim(ellipsoidsB,RKM)"};
     return n[a];
 }
 static Bytes runActivity(int a) {
@@ -192,7 +206,7 @@ static Bytes runActivity(int a) {
     switch (a) {
         case 0: return sim(0, 0); case 1: return sim(1, 1); case 2: return sim(2, 2); case 3: return sim(3, 3); case 4: return sim(0, 1);
         case 5: return actSpline(); case 6: return actLBFGSB(); case 7: return actCMAES(); case 8: return actRoots(); case 9: return actContactQuery();
-        case 10: return sim(4, 0); case 11: return sim(5, 0); case 12: return sim(6, 0); default: return sim(7, 0);
+        case 10: return sim(4, 0); case 11: return sim(5, 0); case 12: return sim(6, 0); case 13: return sim(7, 0); case 14: return sim(8, 0); default: return sim(9, 0);
     }
 }
 static uint64_t hashBytes(const Bytes& b) { return verif::fnv1a(b.data(), b.size() * sizeof(double), 1469598103934665603ULL ^ b.size()); }
@@ -231,7 +245,7 @@ int main(int argc, char** argv) {
     run.setDeadline(240, 3000);
     const bool th = run.thorough();
     const int seqLen = th ? 3 : 2;
-    run.rule = "E2: (a) all sequences of length <= L over a 10-activity alphabet, each sequence executed in a freshly forked process, every activity's result bytes compared with its solo baseline (also from a fresh process); (b) all C(6,3)=20 step-level interleavings of two simulations of 3 stepTo calls each, for all ordered pairs of 5 simulation kinds; (c) the same System object simulated twice. distinct = distinct sequence / interleaving; non-trivial = at least 2 activities";
+    run.rule = "E2: (a) all sequences of length <= L over a 16-activity alphabet, each sequence executed in a freshly forked process, every activity's result bytes compared with its solo baseline (also from a fresh process); (b) all C(6,3)=20 step-level interleavings of two simulations of 3 stepTo calls each, for all ordered pairs of 11 simulation kinds (quick: every 4th pattern for pairs involving kinds 5-10); (c) the same System object simulated twice. distinct = distinct sequence / interleaving; non-trivial = at least 2 activities";
     run.assumptions = {"single-threaded force evaluation and OPENBLAS_NUM_THREADS=1 (stated precondition of bitwise repeatability)", "short simulations (0.2 s, 3 reporting steps)", "activities are fixed instances, not families"};
 
     // solo baselines, each in its own fresh process; computed twice to establish that the oracle is viable
@@ -266,8 +280,8 @@ int main(int argc, char** argv) {
 
     // (b) step-level interleavings of two simulations
     struct SimKind { int model, integ, act; };
-    const int NK = 9;
-    const SimKind kinds[NK] = {{0, 0, 0}, {1, 1, 1}, {2, 2, 2}, {3, 3, 3}, {0, 1, 4}, {4, 0, 10}, {5, 0, 11}, {6, 0, 12}, {7, 0, 13}};
+    const int NK = 11;
+    const SimKind kinds[NK] = {{0, 0, 0}, {1, 1, 1}, {2, 2, 2}, {3, 3, 3}, {0, 1, 4}, {4, 0, 10}, {5, 0, 11}, {6, 0, 12}, {7, 0, 13}, {8, 0, 14}, {9, 0, 15}};
     std::vector<std::vector<int>> patterns;      // which sim advances at each of the 6 slots
     for (int mask = 0; mask < 64; ++mask) if (__builtin_popcount(mask) == 3) { std::vector<int> p; for (int k = 0; k < 6; ++k) p.push_back((mask >> k) & 1); patterns.push_back(p); }
     struct IL { int a, b, pat; };
